@@ -275,6 +275,8 @@ def run(ctx):
     for pitch in range(1, 5 if not ctx.thorough() else 7):
         for n in sorted(set([2, pitch + 1, 2 * pitch + 1] + [int(v) for v in rng.integers(2, 17, size=ctx.budget(2, 12))])):
             hist.append((pitch, n))
+    # more than ten pages (page names ...-log_10 sort before ...-log_2 as strings): crash points around the 11th and 12th page
+    hist += [(1, 13), (2, 24)]
     lines, keep = [], []
     for pitch, n in hist:
         seed = int(rng.integers(1, 2 ** 31))
